@@ -3,6 +3,7 @@
 package internal
 
 import (
+	"fmt"
 	"math"
 	"testing"
 
@@ -43,9 +44,16 @@ func TestVerifClimber(t *testing.T) {
 			size = uint(1000 * (1 + r.intn(1000)))
 		}
 		p := NewTinyLfu[int, int](size, h)
+		ctor := ss(u(uint64(p.window.capacity)), u(uint64(p.slru.maxsize)), u(uint64(p.slru.protected.capacity)))
+		wc0, main0 := uint64(p.window.capacity), uint64(p.slru.maxsize)
 		p.slru.protected.capacity = math.MaxInt64
 		p.window.capacity = math.MaxInt64
 		tr.init(16, int64(size))
+		// the constructor's float32 arithmetic: window, main and protected capacities
+		tr.op("ctor", ss("3"), ctor)
+		if wc0 < 1 || wc0 > uint64(size) || main0+wc0 != uint64(size) {
+			tr.viol(fmt.Sprintf("C07: NewTinyLfu(%d): window capacity %d, main size %d", size, wc0, main0))
+		}
 		// the constructor's state first
 		tr.op("state", ss("1", "0", "0"), func() []string {
 			p.hitsInSample, p.missesInSample = 0, 0
